@@ -355,7 +355,7 @@ def obligations(tier):
             covers += ["backward-jump", "retro-raise"]
         elif kind == "MonoRetro":
             covers += ["backward-jump"]
-        out.append(Ob("step/%s" % kind, h_step, dict(kind=kind), hang_s=240, budget=240,
+        out.append(Ob("step/%s" % kind, h_step, dict(kind=kind), hang_s=240, budget=240, max_fail_keys=2,
                       covers=covers, bounds=dict(bounds, ops=OPS, steps="1 (inductive) from any valid timer state")))
     mids = [[o] for o in NONRESET]
     if not quick:
@@ -368,6 +368,6 @@ def obligations(tier):
     for kind in KINDS:
         for op in OPS:
             covers = ["done"]
-            out.append(Ob("seq/%s/%s" % (kind, op), h_seq, dict(kind=kind, first=op, K=K), hang_s=240, budget=300 if quick else 2400,
+            out.append(Ob("seq/%s/%s" % (kind, op), h_seq, dict(kind=kind, first=op, K=K), hang_s=240, max_fail_keys=1, budget=300 if quick else 2400,
                           covers=covers, bounds=dict(bounds, steps="constructor + %d operations" % K)))
     return out
